@@ -594,7 +594,7 @@ package ro
 //@   on complete(ctx) : emits elem.CompleteWithContext(ctx), Complete(ctx)
 
 //@ operator RaceWith
-//@   props C05 C14
+//@   props C05 C07 C14
 //@   otherwise len(sources) == 0 : returns RaceWith$1
 //@   note won is -1 until a source notifies; j is the index of the source these callbacks belong to
 //@   on next(ctx, value) when won == -1 || won == j : emits Next(ctx, value) ; post won' == j
